@@ -44,5 +44,5 @@ class AccessAddressDiscovered(PbMessageWrapper):
     """BLE connection access address discovered notification message class
     """
     access_address = PbFieldInt('ble.aa_disc.access_address')
-    rssi = PbFieldInt('ble.aa_disc.rssi')
-    timestamp = PbFieldInt('ble.aa_disc.timestamp')
+    rssi = PbFieldInt('ble.aa_disc.rssi', optional=True)
+    timestamp = PbFieldInt('ble.aa_disc.timestamp', optional=True)
